@@ -302,6 +302,8 @@ class Exec(HeapMixin, SpecEvalMixin, ExprMixin, StmtMixin, CallMixin):
                 for cl in c.ensures:
                     g = self.spec_bool(SpecEnv(fin, names, entry, dict(params)), cl.expr)
                     fin = self.oblige(fin, g, "post", cl.label)
+                if not c.ensures and not iff:
+                    self.oblige(fin, TRUE, "post", "returns-normally")
                 self.frame_obligations(fin, entry, c, params)
             elif o.kind == "exc":
                 exc: VExc = o.val
@@ -378,5 +380,6 @@ class Exec(HeapMixin, SpecEvalMixin, ExprMixin, StmtMixin, CallMixin):
                 o = self.decls.fresh("frame_obj", INT)
             cond = And(Lt(I(0), o), Lt(o, entry.alloc), *[Ne(o, p) for p in perm])
             goals.append((key, Implies(cond, Eq(select(final, o), select(init, o)))))
-        for key, g in goals:
-            self.oblige(fin, g, "frame", f"unchanged:{key}")
+        if goals:
+            self.oblige(fin, And(*[g for _, g in goals]), "frame", "unchanged-outside-modifies",
+                        meta={"keys": [k for k, _ in goals]})
